@@ -30,7 +30,7 @@ CHECKS = {
              note="Trusted base: the reference graph analysis (colour DFS, 40 lines), the generator. Exhaustive only inside the stated small scopes; beyond that sampled.", ref="DESIGN.md §3 C14"),
  "C16": dict(level="fault_enumeration", engine="E2 fakekernel + sys.monitoring line-level signal injection", technique="runtime monitoring with fault injection: SIGINT/SIGTERM raised at enumerated main-thread line events of real cond run executions over the interposed kernel; oracle over kernel log (live children vs SIGTERM sent), exit path and index rows",
              text="For 9 scenarios every distinct file:line site of conductor.* (thorough: every line event, plus subprocess.py lines, i.e. inside Popen.__init__ after fork) receives an injected SIGINT/SIGTERM via signal.raise_signal so that the registered handler raises in the executing frame. Oracle: every spawned, still-running child got SIGTERM; exit non-zero through the abort report; no row for a task that had not exited 0.",
-             note=E2_NOTE + " One signal per run; signals before register_signal_handlers() are out of scope.", ref="DESIGN.md §3 C16"),
+             note=E2_NOTE + " One or two signals per run (a second signal at every line event after the first); signals before register_signal_handlers() are out of scope.", ref="DESIGN.md §3 C16"),
  "C19": dict(level="translation_validation", engine="E5 frontend + E2", technique="runtime differential monitoring: each generated run_experiment_group definition and its documented expansion go through the real loader (and a sample through real execution over the interposed kernel); loaded task sets and event logs must be equal",
              text="Translation validation per definition: group form vs explicit run_experiment*/combine form, both through the real loader; compares identifier, type, ordered deps, args/options (command line and JSON, type-exact), parallelizable, run; rejected iff rejected; a sample of pairs is executed with the same scheduler seed and the event logs compared.",
              note="Trusted base: the expansion writer (from the documentation's usage example). No model of the loader is used.", ref="DESIGN.md §3 C19"),
@@ -49,15 +49,15 @@ CHECKS = {
  "C08": dict(level="exploration", engine="E4 statecheck + clock scripts + audit hook", technique="runtime monitoring of command histories under scripted clocks: harness listings, the probe's listing of COND_OUT at start, Merkle hashes of recorded versions before/after, and an audit-hook trace of Conductor's own file-system mutations",
              text="Histories of run (ok / failing / aborted by SIGINT), --again, archive, restore of foreign archives, gc under real back-to-back, frozen, backwards and jumping clocks. Every experiment execution must get a version id above the recorded maximum and a directory that did not exist and is empty; no command but clean may touch a recorded version directory (hash comparison + audit events).",
              note=E1_NOTE + " Only the `time` object seen by conductor.execution.version_index is replaced, and only in scripted-clock cases.", ref="DESIGN.md §3 C08"),
- "C10": dict(level="exploration", engine="E1 procmon (real processes, probe)", technique="runtime monitoring with byte-exact comparison: scripted byte streams written by real task processes vs stdout.log/stderr.log, Conductor's own stdout/stderr and the JSON records",
+ "C10": dict(level="exploration", engine="E1 procmon (real processes, probe)", technique="runtime monitoring with byte-exact comparison: scripted byte streams written by real task processes vs stdout.log/stderr.log, Conductor's own stdout/stderr and the JSON records; process-state stall detector (every thread asleep in an untimed call, a task blocked in write on its pipe) decides deadlocks without a clock",
              text="Tasks write scripted chunks (sizes around pipe/buffer boundaries up to 1 MiB, thorough 8 MiB; all byte values, invalid UTF-8, NUL, CR/LF, ESC; interleaved streams; early close; lingering grandchild) in sequential (teed), parallel-slot and non-parallelizable-under--j modes; logs must equal the bytes written, forwarded output must carry the same bytes, args.json/options.json must decode type-exactly and exist iff non-empty.",
              note=E1_NOTE, ref="DESIGN.md §3 C10"),
  "C11": dict(level="exploration", engine="E4 statecheck", technique="runtime monitoring of archive/restore round trips: selection model over the generator's DAG vs rows read independently and Merkle hashes of every version directory",
              text="Real histories produce several versions per experiment in nested packages (rich trees: empty dirs, 0-byte and binary files, exec bits, unicode names, symlinks incl. dangling; git commit/dirty flags); archive [task] [--latest] [-o ...] then restore into the cleaned project or a fresh clone must recreate exactly the selected rows and byte-identical trees and leave the source untouched.",
              note=E1_NOTE, ref="DESIGN.md §3 C11"),
- "C12": dict(level="fault_enumeration", engine="E4 statecheck + E3 crashpoint", technique="runtime monitoring with fault injection: single corruptions of real archives and process death at enumerated line events of `cond restore`; rows and version-directory hashes before vs after",
+ "C12": dict(level="fault_enumeration", engine="E4 statecheck + E3 crashpoint", technique="runtime monitoring with fault injection: corruptions of real archives (alone and composed with the leftovers of a killed restore) and process death at enumerated line events of `cond restore`; rows and version-directory hashes before vs after",
              text="Faults: index member removed, listed directory removed, truncation, byte flips, an already recorded row first/middle/last among new ones, pre-existing unrecorded destination, stale staging directory, non-archive input; crash at line events of cli/restore.py, version_index.py, shutil.py (thorough: all) and real SIGKILLs. A restore that does not report success must leave the recorded versions and every existing version directory unchanged; a successful one must have every row and directory.",
-             note=E1_NOTE + " One fault at a time; unrecorded leftovers of a failed restore are don't-care.", ref="DESIGN.md §3 C12"),
+             note=E1_NOTE + " One archive fault at a time, alone or on top of the staging leftovers of a killed earlier restore; unrecorded leftovers of a failed restore are don't-care.", ref="DESIGN.md §3 C12"),
  "C13": dict(level="exploration", engine="E4 statecheck", technique="runtime monitoring of gc on hostile trees: full-tree snapshots before/after vs a delete-set model written from the statement",
              text="cond-out trees from real histories plus manual additions (look-alikes inside task outputs, files named like task dirs, recorded timestamps under other packages, symlinks inside/outside cond-out, look-alikes in the project root); gc / gc -n / gc -v must delete exactly the model's set, dry-run nothing and list that set, and never change anything outside cond-out.",
              note=E1_NOTE, ref="DESIGN.md §3 C13"),
